@@ -1591,12 +1591,11 @@ class ArmiObject(metaclass=CompositeModelType):
             nuc: val * factor for nuc, val in self.getNumberDensities().items()
         }
         self.setNumberDensities(densitiesScaled)
-        # Update detailedNDens
-        if self.p.detailedNDens is not None:
-            self.p.detailedNDens *= factor
-        # Update pinNDens
-        if self.p.pinNDens is not None:
-            self.p.pinNDens *= factor
+        # Update detailedNDens and pinNDens where this kind of object has them (blocks, assemblies
+        # and cores do not define both parameters)
+        for paramName in ("detailedNDens", "pinNDens"):
+            if paramName in self.p and self.p[paramName] is not None:
+                self.p[paramName] = self.p[paramName] * factor
 
     def clearNumberDensities(self):
         """
